@@ -54,9 +54,9 @@ def check_sat(assertions, ms: int = QUICK_MS, use_cvc5: bool = True):
     return "unknown", None, dt, "z3"
 
 
-def prove(hyps, goal, ms: int = QUICK_MS):
+def prove(hyps, goal, ms: int = QUICK_MS, use_cvc5: bool = True):
     """validity of  hyps => goal.  -> (verdict in proved/refuted/undecided, model, secs, backend)"""
-    st, m, dt, be = check_sat(list(hyps) + [z3.Not(goal)], ms)
+    st, m, dt, be = check_sat(list(hyps) + [z3.Not(goal)], ms, use_cvc5)
     return {"unsat": "proved", "sat": "refuted", "unknown": "undecided"}[st], m, dt, be
 
 
